@@ -1197,7 +1197,7 @@ func (s *LoadingStore[K, V]) Get(ctx context.Context, key K) (V, error) {
 				loaded.Cost = s.cost(loaded.Value)
 			}
 
-			if err == nil {
+			if err == nil && loaded.Cost <= int64(s.cap) {
 				result = s.setShardWithoutLock(shard, h, key, loaded.Value, loaded.Cost, expire, false)
 				entryCost = loaded.Cost
 				entryExpire = expire
